@@ -43,7 +43,14 @@ def run(ctx, focus):
     rep.extra["recorded_runs_validated_by_tlc"] = nruns
     if focus == "C05":
         # every logger kind x policy x occupancy: flushed and descriptor-free when Destroy returns
-        rep.absorb(ctx.vh(["stopflush"], timeout=1800))
+        rep.absorb(ctx.vh(["stopflush", "--holdsec", "12" if thorough else "5"], timeout=1800))
+        # descriptor clause of the rolling appender ("at most two whenever no write is in progress"): the Rolling.tla
+        # behaviours replayed with /proc/self/fd compared after every step
+        from checks import rolling_common
+        rolling_common.run(ctx, "C05", lite=True, rep=rep)
+        # Destroy in every lifecycle history (async loggers): must return, must not panic, whatever came before
+        life = ctx.tlc("LogSystem", "MC_LogSystem_life_q", timeout=1500)
+        rep.absorb(ctx.vh_sharded("lifecycle", life.emitted, extra=["--mode", "async"], shards=8, timeout=1500))
     rep.exhaustive = True
     rep.rule = ("AsyncLogger.tla model-checked for each policy (2 producers, capacity 2, safety + Stop liveness); "
                 "AsyncGen.tla behaviours - every sequence of %d operations over {event, disabled event, raw write, "
@@ -58,7 +65,9 @@ def run(ctx, focus):
                      "rolling-file logger sync/async x separate, console and file loggers) x 3 policies x item counts "
                      "around the buffer size, built by Refresh: after Destroy returns every accepted item (all but the "
                      "counted discards) is read back from the target, /proc/self/fd holds nothing under the log "
-                     "directory, appenders tolerate a second Stop.")
+                     "directory, appenders tolerate a second Stop; Stop with the worker blocked on a slow appender for 5 s (12 s "
+                     "thorough) must not return early; Rolling.tla behaviours replayed with /proc/self/fd compared after every step "
+                     "(FdBound, FdZeroAfterStop); all lifecycle histories of length 4 with asynchronous loggers (Destroy returns, no panic).")
     rep.assumptions = ["TLC/SANY", "Go toolchain", "gated recording appender plugin (worker parked inside Append/Write)",
                        "negative observations ('still blocked') use a bounded wait on behaviour a correct implementation shows forever",
                        "no log call concurrent with Stop (premise of the property)"]
